@@ -102,6 +102,31 @@ def build_corpus(spec):
                 yield gen.cfg_index(0, style), ed, None, (rel, desc)
 
 
+def build_align(spec):
+    """Window/buffer-boundary x UTF-8 alignment sweep: a statement preceded by a long run of multi-byte characters, with every
+    ASCII padding 0..3 in front, so that `statement offset - 2^k` falls on every byte of a multi-byte character for every k."""
+    for ch, k, pad, where in spec:
+        W = 1 << k
+        run = ch * ((W + 96) // len(ch.encode()) + 1)
+        if where == "comment":
+            text = "a" * pad + "// " + run + "\nfn f() { info!(\"x\"); }\n// tail " + run[:40] + "\n"
+        elif where == "literal":
+            text = "a" * pad + "\nconst S: &str = \"" + run + "\";\nfn f() { info!(\"x\"); warn!(\"" + ch * 3 + "\"); }\n"
+        else:   # many short lines of non-ASCII comments before the statement
+            line = "// " + ch * 7 + "\n"
+            text = "a" * pad + "\n" + line * ((W + 96) // len(line.encode()) + 1) + "fn f() { info!(\"x\"); }\n"
+        for style in (False, True):
+            yield gen.cfg_index(0, style), text, None, ("align", ch, k, pad, where)
+
+
+def align_space(kmax):
+    for ch in ("é", "名", "😀"):
+        for k in range(5, kmax + 1):
+            for pad in range(0, 4):
+                for where in ("comment", "literal", "lines"):
+                    yield (ch, k, pad, where)
+
+
 def panic_sig(detail, code):
     loc = detail.split(" ")[0] if detail else "?"
     loc = loc.replace("/repo/", "")
@@ -323,6 +348,17 @@ def run(tier, v):
         v.violation(panic_sig(f["detail"], f["code"]) if f["class"] == "panic" else "entry-precondition",
                     {"input": f["code"], "detail": f["detail"]}, replay_files={"case.rs": f["code"]})
     v.sample({"skeleton_edit": "".join(SKELETONS[2][:3] + ["😀"] + SKELETONS[2][3:])})
+    # (ii-b) window/buffer boundary x UTF-8 alignment sweep
+    kmax = 20 if tier == "thorough" else 17
+    aspace = list(align_space(kmax))
+    agg = run_nopanic(pool, "c17", "build_align", [aspace[i:i + 12] for i in range(0, len(aspace), 12)], paths)
+    v.count(agg["n"])
+    v.coverage["distinct_nontrivial"] += agg["distinct"]
+    v.subspace("alignment sweep: statement preceded by a run of 2-/3-/4-byte characters of length 2^k (k=5..%d) in a comment / a literal / many "
+               "short comment lines x ASCII padding 0..3 x style" % kmax, agg["n"], exhaustive=True)
+    for f in agg["fails"]:
+        v.violation(panic_sig(f["detail"], f["code"]) if f["class"] == "panic" else "entry-precondition",
+                    {"input_head": f["code"][:120], "label": repr(f["label"]), "detail": f["detail"][:300]}, replay_files={"case.rs": f["code"]})
     # (iii) real corpora: unmodified + complete single-token-edit neighbourhood of every macro occurrence
     cfiles = [(rel, b) for rel, b in corpus.files(max_bytes=200_000 if tier == "quick" else None)]
     specs = []
